@@ -65,33 +65,34 @@ func (k KnownFile) match(prop, harness string, v *Violation) *KnownFinding {
 }
 
 type harnessReport struct {
-	Harness      string                       `json:"harness"`
-	Pkg          string                       `json:"pkg"`
-	Note         string                       `json:"note,omitempty"`
-	Opts         ExecOpts                     `json:"options"`
-	Paths        int                          `json:"paths"`
-	Completed    int                          `json:"paths_completed"`
-	Infeasible   int                          `json:"paths_infeasible"`
-	Steps        int                          `json:"ssa_instructions_executed"`
-	Obligations  int                          `json:"assertions_checked"`
-	Discharged   map[string]int               `json:"assertions_discharged_by_label"`
-	Covers       map[string]int               `json:"covers_reached"`
-	Queries      int                          `json:"solver_queries"`
-	Sat          int                          `json:"solver_sat"`
-	Unsat        int                          `json:"solver_unsat"`
-	Unknown      int                          `json:"solver_unknown"`
-	SolverS      float64                      `json:"solver_time_s"`
-	MaxQueryS    float64                      `json:"max_query_s"`
-	WallS        float64                      `json:"wall_s"`
-	OverflowObl  int                          `json:"int_mode_range_obligations,omitempty"`
-	Violations   int                          `json:"violations"`
-	Known        int                          `json:"known_findings"`
-	Errors       []string                     `json:"errors,omitempty"`
-	BoundsHit    []string                     `json:"bounds_exceeded,omitempty"`
-	Inconclusive []string                     `json:"inconclusive,omitempty"`
-	MissingCover []string                     `json:"covers_not_reached,omitempty"`
-	Validated    int                          `json:"cover_models_replayed_natively"`
-	ValidateFail []string                     `json:"native_replay_disagreements,omitempty"`
+	Harness      string         `json:"harness"`
+	Pkg          string         `json:"pkg"`
+	Note         string         `json:"note,omitempty"`
+	Opts         ExecOpts       `json:"options"`
+	Paths        int            `json:"paths"`
+	Completed    int            `json:"paths_completed"`
+	Infeasible   int            `json:"paths_infeasible"`
+	Steps        int            `json:"ssa_instructions_executed"`
+	MaxGap       int            `json:"max_instructions_between_progress"`
+	Obligations  int            `json:"assertions_checked"`
+	Discharged   map[string]int `json:"assertions_discharged_by_label"`
+	Covers       map[string]int `json:"covers_reached"`
+	Queries      int            `json:"solver_queries"`
+	Sat          int            `json:"solver_sat"`
+	Unsat        int            `json:"solver_unsat"`
+	Unknown      int            `json:"solver_unknown"`
+	SolverS      float64        `json:"solver_time_s"`
+	MaxQueryS    float64        `json:"max_query_s"`
+	WallS        float64        `json:"wall_s"`
+	OverflowObl  int            `json:"int_mode_range_obligations,omitempty"`
+	Violations   int            `json:"violations"`
+	Known        int            `json:"known_findings"`
+	Errors       []string       `json:"errors,omitempty"`
+	BoundsHit    []string       `json:"bounds_exceeded,omitempty"`
+	Inconclusive []string       `json:"inconclusive,omitempty"`
+	MissingCover []string       `json:"covers_not_reached,omitempty"`
+	Validated    int            `json:"cover_models_replayed_natively"`
+	ValidateFail []string       `json:"native_replay_disagreements,omitempty"`
 }
 
 func checkMain(args []string) {
@@ -181,7 +182,7 @@ func checkMain(args []string) {
 		}
 		st := Explore(P, pkg, h, *workers, *solver, *timeout)
 		r := &harnessReport{Harness: h.Func, Pkg: h.Pkg, Note: h.Note, Opts: h.Opts, Paths: st.Paths, Completed: st.Completed, Infeasible: st.Infeasible,
-			Steps: st.Steps, Obligations: st.AssertsTotal, Discharged: st.Asserts, Covers: st.Covers,
+			Steps: st.Steps, MaxGap: st.MaxGap, Obligations: st.AssertsTotal, Discharged: st.Asserts, Covers: st.Covers,
 			Queries: st.Solver.Queries, Sat: st.Solver.Sat, Unsat: st.Solver.Unsat, Unknown: st.Solver.Unknown,
 			SolverS: st.Solver.Time.Seconds(), MaxQueryS: st.Solver.MaxQuery.Seconds(), WallS: st.Wall.Seconds(), OverflowObl: st.OverflowObl,
 			Errors: dedupe(st.Errors, 5), BoundsHit: dedupe(st.Bounds, 5), Inconclusive: dedupe(st.Inconclusive, 5)}
@@ -463,9 +464,14 @@ func writeEvidence(prop, tier string, seed int, ps PropSpec, extra map[string]in
 	if len(errs) > 0 {
 		ev["errors"] = errs
 	}
-	os.MkdirAll(filepath.Join(verifDir, "evidence"), 0o755)
+	evDir := filepath.Join(verifDir, "evidence")
+	if os.Getenv("VERIF_REPO") != "" {
+		// A trial against a scratch tree (tools/try_seed.sh) never rewrites the evidence of /repo.
+		evDir = filepath.Join(os.Getenv("VERIF_REPO")+".verif", "evidence")
+	}
+	os.MkdirAll(evDir, 0o755)
 	b, _ := json.MarshalIndent(ev, "", " ")
-	os.WriteFile(filepath.Join(verifDir, "evidence", prop+".json"), b, 0o644)
+	os.WriteFile(filepath.Join(evDir, prop+".json"), b, 0o644)
 }
 
 // ---------------------------------------------------------------------------
@@ -581,7 +587,7 @@ func recordReplay(prop string, h HarnessSpec, v *Violation, overlayFiles map[str
 	vec := replayVector{Property: prop, Pkg: h.Pkg, Harness: h.Func, Kind: v.Kind, Label: v.Label, Msg: v.Msg, Model: v.Model, Decisions: v.Prefix, Stack: v.Stack, Opts: h.Opts, NoNative: h.NoNative}
 	b, _ := json.MarshalIndent(vec, "", " ")
 	os.WriteFile(filepath.Join(dir, "vector.json"), b, 0o644)
-	script := fmt.Sprintf("#!/bin/sh\n# native replay of the counterexample against the real code\ncd /repo && VND_HARNESS=%s VND_REPLAY=%s/vector.json GOFLAGS=-mod=mod GOPROXY=off GOSUMDB=off GOTOOLCHAIN=local timeout 300 go test -tags verif -vet=off -count=1 -overlay %s/overlay.json -run 'TestVerifReplay$' -v ./%s\n", h.Func, dir, dir, h.Pkg)
+	script := fmt.Sprintf("#!/bin/sh\n# native replay of the counterexample against the real code\ncd %s && VND_HARNESS=%s VND_REPLAY=%s/vector.json GOFLAGS=-mod=mod GOPROXY=off GOSUMDB=off GOTOOLCHAIN=local timeout 300 go test -tags verif -vet=off -count=1 -overlay %s/overlay.json -run 'TestVerifReplay$' -v ./%s\n", repoDir, h.Func, dir, dir, h.Pkg)
 	os.WriteFile(filepath.Join(dir, "replay.sh"), []byte(script), 0o755)
 	return dir
 }
@@ -597,7 +603,7 @@ func runNative(dir, pkgRel string, env []string) (string, error) {
 
 // confirmReplay runs the counterexample against the natively compiled code.
 func confirmReplay(dir string, h HarnessSpec, v *Violation) (string, string) {
-	if v.Kind == "deadlock" || v.Kind == "race" || h.Opts.Schedule || h.NoNative {
+	if v.Kind == "deadlock" || v.Kind == "livelock" || v.Kind == "race" || h.Opts.Schedule || h.NoNative {
 		// schedule-dependent: the Go runtime cannot be forced onto the recorded
 		// interleaving; the replay is the deterministic re-execution of the
 		// recorded decision sequence by the engine (vcheck <prop> --replay <dir>).
@@ -741,7 +747,7 @@ func replayRecorded(dir string) int {
 			fmt.Println("    at", l)
 		}
 	}
-	if !(vec.Kind == "deadlock" || vec.Kind == "race" || vec.Opts.Schedule || vec.NoNative) {
+	if !(vec.Kind == "deadlock" || vec.Kind == "livelock" || vec.Kind == "race" || vec.Opts.Schedule || vec.NoNative) {
 		out, _ := runNative(dir, vec.Pkg, []string{"VND_HARNESS=" + vec.Harness, "VND_REPLAY=" + filepath.Join(dir, "vector.json")})
 		fmt.Println("native replay output (tail):")
 		fmt.Println(lastLines(out, 15))
